@@ -1,4 +1,4 @@
-mod util; mod skel; mod parsers; mod corpus; mod gen; mod pegcmp; mod report; mod api; mod c01; mod c16; mod c15; mod gen_pp; mod ppcmp; mod c06; mod calls; mod c20; mod c07; mod ppref; mod ppo; mod c09; mod c18; mod c17; mod toks; mod c14; mod c13; mod c12; mod c02; mod c08;
+mod util; mod skel; mod parsers; mod corpus; mod gen; mod pegcmp; mod report; mod api; mod c01; mod c16; mod c15; mod gen_pp; mod ppcmp; mod c06; mod calls; mod c20; mod c07; mod ppref; mod ppo; mod c09; mod c18; mod c17; mod toks; mod c14; mod c13; mod c12; mod c02; mod c08; mod unitcmp;
 
 fn main() {
     if std::env::var("SVH_PANICS").is_err() { util::silence_panics(); }
@@ -23,6 +23,7 @@ fn main() {
         "c12" => c12::main(&args[1..]),
         "c02" => c02::main(&args[1..]),
         "c08" => c08::main(&args[1..]),
+        "unitcmp" => unitcmp::main(&args[1..]),
         "c03" | "c04" | "c05" | "c10" | "c11" => ppo::main(&args[1..], &args[0]),
         "parse" => { let k = skel::Kinds::load(&args[1]); println!("{}", parsers::run(&args[2], Some(Some(1024)), &args[3], &k, true).line()); }
         // debugging aid: observation line of one parser entry on a file at a given memo capacity
